@@ -800,7 +800,8 @@ func (m *Machine) tryFormat(kind string, a []Value) (string, bool) {
 // ---------------- sync objects ----------------
 
 type mutexState struct {
-	vc      []int
+	vc      []int // released by writers (Unlock): acquired by every later Lock / RLock
+	rvc     []int // released by readers (RUnlock): acquired by later WRITERS only — two read-lock holders are not ordered
 	writer  *Goroutine
 	readers map[*Goroutine]int
 	wwait   int // writers waiting (blocks new readers, Go semantics)
@@ -842,6 +843,9 @@ func (m *Machine) mutexLock(c *Cell, write bool, op string) {
 		st.readers[g]++
 	}
 	m.vcAcquire(st.vc)
+	if write {
+		m.vcAcquire(st.rvc)
+	}
 }
 
 func (m *Machine) lockViolation(what string) {
@@ -856,7 +860,11 @@ func (m *Machine) lockViolation(what string) {
 func (m *Machine) mutexUnlock(c *Cell, write bool) {
 	st := m.mutexState(c)
 	g := m.path.cur
-	m.vcRelease(&st.vc)
+	if write {
+		m.vcRelease(&st.vc)
+	} else {
+		m.vcRelease(&st.rvc)
+	}
 	if write {
 		if st.writer == nil {
 			m.goPanic("sync: unlock of unlocked mutex")
